@@ -4,6 +4,7 @@ import LospanVerif.Driver.PhyIO
 import LospanVerif.Model.Eui
 import LospanVerif.Model.Router
 import LospanVerif.Model.Text
+import LospanVerif.Model.Row
 /- Driver handlers for the gateway engine (stateful: registry, switch, PULL ports). -/
 namespace LospanVerif
 namespace Driver
@@ -160,6 +161,54 @@ def handleTxt : List String → String
     | some k => s!"str={String.ofList (Model.Text.keyString k)} parse={optBytes (Model.Text.parseKey (Model.Text.keyString k))}"
     | none => "bad-args"
   | _ => "bad-args"
+
+/-- Device table engine (Model/Row.lean). -/
+def devRowText (d : Model.Row.Dev) : String :=
+  s!"eui={xh d.eui},addr={d.devAddr},appkey={xh d.appKey},apps={xh d.appSKey},nwks={xh d.nwkSKey},app={xh d.appEui},state={d.state},up={d.fcntUp},dn={d.fcntDn},relaxed={b01 d.relaxed},warn={b01 d.warn},tag={xh (d.tag.map fun c => BitVec.ofNat 8 c.toNat)}"
+
+def parseDevRow : List String → Option Model.Row.Dev
+  | [eui, addr, ak, sk, nk, app, st, up, dn, rel, warn, tag] =>
+    match hx eui, nat? addr, hx ak, hx sk, hx nk, hx app, nat? st, nat? up, nat? dn with
+    | some e, some a, some k1, some k2, some k3, some ap, some s, some u, some d =>
+      some { eui := e, devAddr := a, appKey := k1, appSKey := k2, nwkSKey := k3, appEui := ap, state := s, fcntUp := u, fcntDn := d,
+             relaxed := rel == "1", warn := warn == "1", tag := charsOfHex tag }
+    | _, _, _, _, _, _, _, _, _ => none
+  | _ => none
+
+def handleRow (t : Model.Row.Table) : List String → Model.Row.Table × String
+  | ["row.reset"] => ([], "ok")
+  | "row.create" :: rest =>
+    match parseDevRow rest with
+    | some d => match Model.Row.create t d with
+      | some t' => (t', "ok")
+      | none => (t, "dup")
+    | none => (t, "bad-args")
+  | "row.update" :: rest =>
+    match parseDevRow rest with
+    | some d => match Model.Row.update t d with
+      | some t' => (t', "ok")
+      | none => (t, "notfound")
+    | none => (t, "bad-args")
+  | ["row.delete", eui] =>
+    match hx eui with
+    | some e => match Model.Row.delete t e with
+      | some t' => (t', "ok")
+      | none => (t, "notfound")
+    | none => (t, "bad-args")
+  | ["row.get", eui] =>
+    match hx eui with
+    | some e => match Model.Row.get t e with
+      | .notFound => (t, "notfound")
+      | .bad => (t, "fail")
+      | .dev d => (t, devRowText d)
+    | none => (t, "bad-args")
+  | ["row.list", app] =>
+    match hx app with
+    | some a => match Model.Row.list t a with
+      | some ds => (t, "n=" ++ toString ds.length ++ " " ++ " ".intercalate (ds.map devRowText))
+      | none => (t, "fail")
+    | none => (t, "bad-args")
+  | _ => (t, "bad-args")
 
 end Driver
 end LospanVerif
